@@ -20,21 +20,40 @@ impl<T: Atomic> Atom<T> {
     #[cfg_attr(feature = "log_trace", track_caller)]
     pub fn load(&self) -> T {
         trace!("{} load", core::panic::Location::caller());
+        #[cfg(feature = "verif")]
+        crate::verif::before(crate::verif::Op::Load, self.addr(), size_of::<T::I>());
         self.0.load().into()
     }
     #[cfg_attr(feature = "log_trace", track_caller)]
     pub fn store(&self, v: T) {
         trace!("{} store", core::panic::Location::caller());
+        #[cfg(feature = "verif")]
+        if crate::verif::enabled() {
+            return self.hooked(crate::verif::Op::Store, |a| (a.store(v.into()), true));
+        }
         self.0.store(v.into());
     }
     #[cfg_attr(feature = "log_trace", track_caller)]
     pub fn swap(&self, v: T) -> T {
         trace!("{} swap", core::panic::Location::caller());
+        #[cfg(feature = "verif")]
+        if crate::verif::enabled() {
+            return self.hooked(crate::verif::Op::Swap, |a| (a.swap(v.into()).into(), true));
+        }
         self.0.swap(v.into()).into()
     }
     #[cfg_attr(feature = "log_trace", track_caller)]
     pub fn compare_exchange(&self, current: T, new: T) -> Result<T, T> {
         trace!("{} cmpxchg", core::panic::Location::caller());
+        #[cfg(feature = "verif")]
+        if crate::verif::enabled() {
+            return self.hooked(crate::verif::Op::Cas, |a| {
+                match a.compare_exchange(current.into(), new.into()) {
+                    Ok(v) => (Ok(v.into()), true),
+                    Err(v) => (Err(v.into()), false),
+                }
+            });
+        }
         match self.0.compare_exchange(current.into(), new.into()) {
             Ok(v) => Ok(v.into()),
             Err(v) => Err(v.into()),
@@ -43,6 +62,15 @@ impl<T: Atomic> Atom<T> {
     #[cfg_attr(feature = "log_trace", track_caller)]
     pub fn compare_exchange_weak(&self, current: T, new: T) -> Result<T, T> {
         trace!("{} cmpxchgw", core::panic::Location::caller());
+        #[cfg(feature = "verif")]
+        if crate::verif::enabled() {
+            return self.hooked(crate::verif::Op::CasWeak, |a| {
+                match a.compare_exchange_weak(current.into(), new.into()) {
+                    Ok(v) => (Ok(v.into()), true),
+                    Err(v) => (Err(v.into()), false),
+                }
+            });
+        }
         match self.0.compare_exchange_weak(current.into(), new.into()) {
             Ok(v) => Ok(v.into()),
             Err(v) => Err(v.into()),
@@ -51,6 +79,10 @@ impl<T: Atomic> Atom<T> {
     #[cfg_attr(feature = "log_trace", track_caller)]
     pub fn try_update<F: FnMut(T) -> Option<T>>(&self, mut f: F) -> Result<T, T> {
         trace!("{} update", core::panic::Location::caller());
+        #[cfg(feature = "verif")]
+        if crate::verif::enabled() {
+            return self.hooked_try_update(f);
+        }
         match self.0.try_update(|v| f(v.into()).map(Into::into)) {
             Ok(v) => Ok(v.into()),
             Err(v) => Err(v.into()),
@@ -59,12 +91,58 @@ impl<T: Atomic> Atom<T> {
     #[cfg_attr(feature = "log_trace", track_caller)]
     pub fn update<F: FnMut(T) -> T>(&self, mut f: F) -> T {
         trace!("{} update", core::panic::Location::caller());
+        #[cfg(feature = "verif")]
+        if crate::verif::enabled() {
+            return match self.hooked_try_update(|v| Some(f(v))) {
+                Ok(v) | Err(v) => v,
+            };
+        }
         self.0.update(|v| f(v.into()).into()).into()
     }
 }
 impl<T: Atomic + Default> Default for Atom<T> {
     fn default() -> Self {
         Self::new(Default::default())
+    }
+}
+
+/// Hooked variants of the atomic operations for deterministic simulation.
+#[cfg(feature = "verif")]
+impl<T: Atomic> Atom<T> {
+    fn addr(&self) -> usize {
+        self as *const Self as usize
+    }
+    /// Execute the write-capable operation `f` between the before and after hooks.
+    fn hooked<R>(&self, op: crate::verif::Op, f: impl FnOnce(&T::I) -> (R, bool)) -> R {
+        crate::verif::before(op, self.addr(), size_of::<T::I>());
+        let (r, success) = f(&self.0);
+        crate::verif::after(op, self.addr(), size_of::<T::I>(), success);
+        r
+    }
+    /// Same semantics as the standard library's `try_update`,
+    /// but with every load and compare exchange as separate hooked step.
+    /// The weak compare exchange may be told to fail spuriously.
+    fn hooked_try_update<F: FnMut(T) -> Option<T>>(&self, mut f: F) -> Result<T, T> {
+        use crate::verif::Op;
+        let size = size_of::<T::I>();
+        crate::verif::before(Op::UpdateLoad, self.addr(), size);
+        let mut prev = self.0.load();
+        while let Some(next) = f(prev.into()) {
+            crate::verif::before(Op::UpdateCas, self.addr(), size);
+            if crate::verif::casfail(self.addr(), size) {
+                // spurious failure of the weak compare exchange
+                crate::verif::after(Op::UpdateCas, self.addr(), size, false);
+                prev = self.0.load();
+                continue;
+            }
+            let r = self.0.compare_exchange(prev, next.into());
+            crate::verif::after(Op::UpdateCas, self.addr(), size, r.is_ok());
+            match r {
+                Ok(v) => return Ok(v.into()),
+                Err(v) => prev = v,
+            }
+        }
+        Err(prev.into())
     }
 }
 impl<T: Atomic + fmt::Debug> fmt::Debug for Atom<T> {
@@ -124,6 +202,10 @@ macro_rules! fn_trivial {
     ($ty:ident ; $($name:ident),+) => {
         $(
             pub fn $name(&self, v: $ty) -> $ty {
+                #[cfg(feature = "verif")]
+                if crate::verif::enabled() {
+                    return self.hooked(crate::verif::Op::Fetch, |a| (AtomicImpl::$name(a, v), true));
+                }
                 AtomicImpl::$name(&self.0, v)
             }
         )+
